@@ -243,6 +243,25 @@ func TestC08New(t *testing.T) {
 				reject = append(reject, "more than 255 declared enum values")
 			}
 		}
+		if rapid.IntRange(0, 19).Draw(t, "enumnonstring") == 0 {
+			// an Enums entry that cannot be honoured: the column exists but holds ints, floats or bools
+			// (the library reports it like an entry for a missing column)
+			var cands []int
+			for i, c := range cols {
+				if c.Col.Kind != hx.KString && c.Col.Kind != hx.KEnum && supported(c.Form) {
+					cands = append(cands, i)
+				}
+			}
+			if len(cands) > 0 {
+				c := cols[cands[rapid.IntRange(0, len(cands)-1).Draw(t, "nonstrcol")]]
+				if rapid.Bool().Draw(t, "nonstrdecl") {
+					enums[c.Name] = []string{"1", "true", "0.5"}
+				} else {
+					enums[c.Name] = nil
+				}
+				reject = append(reject, "Enums entry for a non-string column")
+			}
+		}
 		if rapid.IntRange(0, 19).Draw(t, "enummissing") == 0 {
 			enums["nosuchcol"] = []string{"a"}
 			reject = append(reject, "Enums entry for a missing column")
